@@ -131,13 +131,14 @@ func checkTxPaths(b []byte, rep *report) {
 			h.EncodeBinary(pw.BinWriter)
 			pw.WriteVarUint(1)
 			pw.WriteBytes(b)
-			if len(pw.Bytes()) > payload.MaxSize {
+			body := pw.Bytes()
+			if len(body) > payload.MaxSize {
 				return txView{}
 			}
 			w := io.NewBufBinWriter()
 			w.WriteB(0)
 			w.WriteB(byte(network.CMDBlock))
-			w.WriteVarBytes(pw.Bytes())
+			w.WriteVarBytes(body)
 			m := &network.Message{}
 			r := io.NewBinReaderFromBuf(w.Bytes())
 			if err := m.Decode(r); err != nil {
